@@ -2,6 +2,9 @@
 """Import verified seeded changes produced by sub-agents (/tmp/out-<prop>/<n>/) into /verif/seeded/<prop>-<n>/.
 usage: seed_import.py <result json of tools/seed_eval.py> ..."""
 import json, os, shutil, sys
+OFFSET = 0
+if '--offset' in sys.argv:
+    i = sys.argv.index('--offset'); OFFSET = int(sys.argv[i + 1]); del sys.argv[i:i + 2]
 ROOT = os.path.dirname(os.path.dirname(os.path.abspath(__file__)))
 for rf in sys.argv[1:]:
     try:
@@ -12,13 +15,14 @@ for rf in sys.argv[1:]:
     if not ok:
         print('skip (not confirmed)', rf); continue
     src = r['dir']
-    sid = '%s-%s' % (r['property'], os.path.basename(src))
+    sid = '%s-%d' % (r['property'], int(os.path.basename(src)) + OFFSET)
     dst = os.path.join(ROOT, 'seeded', sid)
     os.makedirs(dst, exist_ok=True)
     for f in ('patch.diff', 'demo.py'):
         shutil.copy(os.path.join(src, f), os.path.join(dst, f))
     meta = json.load(open(os.path.join(src, 'meta.json')))
     meta['id'] = sid
+    meta['round'] = 2 if OFFSET else 1
     meta['origin'] = 'independent sub-agent given only the property text and a scratch worktree of /repo (HEAD incl. the fix: commits)'
     meta['confirmed'] = {
         'how': 'tools/seed_eval.py: patch applied to a scratch copy of /repo; tools/baseline.py (2830 pinned tests) on the copy; '
